@@ -454,3 +454,20 @@ package updog
 //@     invariant tx != nil && !(tx in old($alloc)) && tx.gdb == idx.db && tx.writable && !tx.done && dataBucket != nil && dataBucket.gtx == tx && shas(tx.work)
 //@     invariant tempTx != nil && !(tempTx in old($alloc)) && tempTx.gdb == idx.tempDB && !tempTx.writable && tempTx != tx && !idx.tempDB.wopen
 //@     invariant cursor != nil && idx.schema != nil
+
+// ---- LRU cache construction (C07): the invariant is established by the constructor, for every capacity
+//@ functype LRUCacheOption.call(c)
+//@   requires c != nil && c.metrics != nil
+//@   modifies c.metrics
+//@   ensures CountersOK(c.metrics)
+//@ func [C07] WithCacheMetrics$1(c) inherits LRUCacheOption.call
+//@   assumes distinct_counters_given: CountersOK(metrics)
+//@ func [C07,C03] NewLRUCache(maxSizeBytes, opts) (cache)
+//@   requires forall j idx(opts) :: opts[j] != nil
+//@   ensures [C07] cache != nil && fresh(cache) && LRUInv(cache) && cache.maxSize == maxSizeBytes && cache.mtx.held == 0
+//@   ensures [C07] starts_empty: cache.lruList.members == rempty() && cache.curSize == 0 && (forall k uint64 :: !(k in cache.entries))
+//@   loop 1
+//@     invariant cache != nil && !(cache in old($alloc)) && cache.maxSize == maxSizeBytes && cache.curSize == 0 && cache.mtx.held == 0
+//@     invariant cache.entries != nil && !(cache.entries in old($alloc)) && (forall k uint64 :: !(k in cache.entries))
+//@     invariant cache.lruList != nil && !(cache.lruList in old($alloc)) && ListInv(cache.lruList) && cache.lruList.members == rempty()
+//@     invariant cache.metrics != nil && CountersOK(cache.metrics)
